@@ -30,14 +30,32 @@ out += ["", "**(b) Changes written by independent sub-agents** (`seeded/<id>/`: 
         "it was kept. 'First run' is the verdict of the harness as it was when the round was launched (from round C on measured",
         "mechanically with `tools/measure_round.sh <commit> <round>`); 'now' is the current harness.", "",
         "| round | changes | caught at first run | caught now |", "|---|---|---|---|"]
+res0 = {}
+_p = os.path.join(HERE, "sensitivity", "seeded.txt")
+if os.path.exists(_p):
+    for ln in open(_p):
+        m = re.search(r"seeded (\S+) vs (\S+): rc=(\d+)", ln)
+        if m:
+            res0[m.group(1)] = m.group(3)
+now_caught = {}
+for d in sorted(glob.glob(os.path.join(HERE, "seeded", "*", "meta.json"))):
+    m = json.load(open(d))
+    rc = res0.get(m["id"]) or ("0" if "rc=0" in m.get("check_result", "") else "1")
+    r = m["id"].split("-")[1][0]
+    now_caught[r] = now_caught.get(r, 0) + (1 if rc == "1" else 0)
 for r in sorted(rounds):
-    out.append("| %s | %d | %d | %d |" % (r.upper(), rounds[r][0], rounds[r][1], rounds[r][0]))
+    out.append("| %s | %d | %d | %d |" % (r.upper(), rounds[r][0], rounds[r][1], now_caught.get(r, 0)))
 out += ["",
         "The agents were asked for changes that evade ordinary use and the existing tests, and from round B on also the ideas already",
         "used - i.e. they were aimed at whatever the workloads did not yet contain. Every miss turned out to be a blind spot of a",
-        "*generator* (a file shape, a configuration, an environment, a fault combination or a history the workload never produced),",
-        "not of an oracle; each was closed by widening the generator, after which the change is caught. The misses are the most",
-        "useful part of this table: they say which dimensions a fresh change is most likely to hide in.", "",
+        "*generator* (a file shape, a configuration, an environment, a fault combination or a history the workload never produced)",
+        "- with two exceptions where the oracle was at fault: C05 compared check with edit only, so a statement both overlooked went",
+        "unnoticed (C05-k; a model-based clause was added), and violations of a tool made to race inside its own process did not",
+        "reproduce on re-execution (C02-i; three confirmation attempts now). Each miss was closed by widening the generator, after",
+        "which the change is caught - except C06-l, which needs a source file whose size lies within 0.1 % of a parser budget that only",
+        "that change introduces (2.3 MB of ordinary code): random sizes do not land there, and a search for the threshold would be a",
+        "check written for one change. It is listed as MISSED. The misses are the most useful part of this table: they say which",
+        "dimensions a fresh change is most likely to hide in.", "",
         "| id | property | what it needs to manifest | first run | now | what was strengthened |", "|---|---|---|---|---|---|"]
 res = {}
 p = os.path.join(HERE, "sensitivity", "seeded.txt")
@@ -50,7 +68,7 @@ for d in sorted(glob.glob(os.path.join(HERE, "seeded", "*", "meta.json"))):
     m = json.load(open(d))
     hist = m["history"]
     first = "missed" if hist.upper().startswith("MISSED") else "caught"
-    now = {"1": "caught (exit 1)", "0": "MISSED", "2": "harness error"}.get(res.get(m["id"], ""), "caught (exit 1)")
+    now = {"1": "caught (exit 1)", "0": "MISSED", "2": "harness error"}.get(res.get(m["id"]) or ("0" if "rc=0" in m.get("check_result", "") else "1"))
     out.append("| %s | %s | %s | %s | %s | %s |" % (m["id"], m["property"], m["needs_to_manifest"].replace("|", "/"), first, now,
                                                   hist.replace("|", "\\|")))
 out.append("")
